@@ -22,7 +22,9 @@ RULE = (
     'cut at a top-level line into A and B - one parser object fed A, parsed, fed B, parsed again (first result = '
     'A before and after, second = B, and two parsers on one shared empty Environment). Later rounds: the same '
     "text through add_file; doubled backslashes in strings, cells and blocks; hash-led and '#!' block lines; "
-    'capitalised look-alikes of none / true. Distinct = distinct rendered text.'
+    'capitalised look-alikes of none / true. Rounds 7-8: none with a unit; the empty string; files that begin '
+    'with a blank line; quote characters in trailing comments (strategy quoted_comment; known finding C13-K1). '
+    'Distinct = distinct rendered text.'
 )
 ASSUMPTIONS = [
     "no node has children below a table (the table line is replaced by its columns)",
